@@ -32,4 +32,12 @@ theorem reconstruct_calls : Facts.c13_reconstruct_calls =
 theorem maxPendingRequestsPerPeer : Facts.c13_maxPendingRequestsPerPeer = 20 := by decide
 theorem maxDiff : Facts.c13_maxDiffBetweenCurrentAndReceivedBlockHeight = 100 := by decide
 
+/-- v2 `pcState.handle`: light verification, then save, then apply (which validates) — the model
+`V2.Pc.handle` has this order, and `v2_saved_is_canonical` its consequence -/
+theorem v2_handle_order : Facts.c13_v2_handle_order =
+    ["purgePeer", "nextTwo", "verifyCommit", "saveBlock", "applyBlock"] := by decide
+
+/-- v2 `pcState.height()` is the state's `LastBlockHeight` (model: `p.st.lastHeight + 1`, `+ 2`) -/
+theorem v2_height : Facts.c13_v2_height = true := by decide
+
 end Tmv.Expect.C13
